@@ -1159,3 +1159,142 @@ Lemma source_reverse :
   gen_lvs_message = [[]; []] /\ gen_lvs_first = [[]; EQ; []] /\ gen_lvs_rest = [[32]; EQ; []] /\
   gen_lvs_message_name = MESSAGE.
 Proof. repeat split; try reflexivity. apply level_to_log_id. Qed.
+
+(** * The sequential histories of [run] are the machine histories in which every call runs to completion *)
+Inductive sop := SInstallScoped | SInstallGlobal | SUninstall | SLog (o : op).
+Definition sop_block (x : N * sop) : list mop :=
+  match snd x with
+  | SInstallScoped => call_block (fst x) FSetDefault
+  | SInstallGlobal => call_block (fst x) FSetGlobal
+  | SUninstall => call_block (fst x) FGuardDrop
+  | SLog o => [MLog (fst x) o]
+  end.
+Definition sop_op (x : N * sop) : op :=
+  match snd x with SInstallScoped | SInstallGlobal => OpInstall | SUninstall => OpUninstall | SLog o => o end.
+Definition is_log_op (o : op) : bool := match o with OpInstall | OpUninstall => false | _ => true end.
+Definition sop_ok (x : N * sop) : Prop := match snd x with SLog o => is_log_op o = true | _ => True end.
+
+(** a call's actions performed in one go: a failed CAS ends it *)
+Fixpoint exec (acts : list action) (r : regs) : regs :=
+  match acts with
+  | [] => r
+  | a :: rest => let '(r', go) := act a r in if go then exec rest r' else r'
+  end.
+
+Lemma idle_steps : forall cfg t l s, m_thr s t = None ->
+  fst (mrun cfg s (map (fun _ : action => MStep t) l)) = s /\ List.concat (snd (mrun cfg s (map (fun _ : action => MStep t) l))) = [].
+Proof.
+  intros cfg t l. induction l as [|a l IH]; intros s Hs; [split; reflexivity|].
+  cbn [map]. rewrite mrun_cons. cbn [mstep]. rewrite Hs. cbn [fst snd List.concat app]. now apply IH.
+Qed.
+
+Lemma steps_complete : forall cfg t f acts s, acts <> [] -> m_thr s t = Some (f, acts) ->
+  let m := mrun cfg s (map (fun _ : action => MStep t) acts) in
+  List.concat (snd m) = [] /\ m_regs (fst m) = exec acts (m_regs s) /\
+  (forall t', m_thr (fst m) t' = if t' =? t then None else m_thr s t').
+Proof.
+  intros cfg t f acts. induction acts as [|a rest IH]; intros s Hne Hs; [congruence|].
+  cbn zeta. cbn [map]. rewrite mrun_cons. cbn [mstep exec]. rewrite Hs.
+  destruct (act a (m_regs s)) as [r' go]. destruct go.
+  - destruct rest as [|a2 rest2].
+    + cbn [map mrun fst snd List.concat app exec m_regs m_thr]. repeat split; reflexivity.
+    + cbn [fst snd List.concat app].
+      set (s1 := {| m_regs := r'; m_thr := upd (m_thr s) t (Some (f, a2 :: rest2)); m_installed := m_installed s |}).
+      assert (H1 : m_thr s1 t = Some (f, a2 :: rest2)) by (unfold s1; cbn [m_thr]; apply upd_same).
+      destruct (IH s1 ltac:(discriminate) H1) as (I1 & I2 & I3). cbn zeta in I1, I2, I3.
+      split; [exact I1|]. split; [exact I2|].
+      intros t'. rewrite I3. unfold s1; cbn [m_thr]. unfold upd. destruct (t' =? t); reflexivity.
+  - cbn [fst snd List.concat app].
+    set (s1 := {| m_regs := r'; m_thr := upd (m_thr s) t None; m_installed := m_installed s |}).
+    assert (H1 : m_thr s1 t = None) by (unfold s1; cbn [m_thr]; apply upd_same).
+    destruct (idle_steps cfg t rest s1 H1) as [J1 J2]. rewrite J1, J2.
+    split; [reflexivity|]. split; [reflexivity|]. intros t'. unfold s1; cbn [m_thr]. unfold upd. destruct (t' =? t); reflexivity.
+Qed.
+
+(** between two blocks: every thread is outside a call, the flag is what [run] carries, and a claimed global
+    default implies the flag *)
+Definition boundary (s : mstate) (ex : bool) : Prop :=
+  (forall t, m_thr s t = None) /\ has_been_set (m_regs s) = ex /\ (r_ginit (m_regs s) <> 0 -> r_exists (m_regs s) <> 0).
+Lemma boundary_init : boundary minit false.
+Proof. split; [reflexivity|]. split; [reflexivity|]. intros H. now elim H. Qed.
+
+Lemma block_complete : forall cfg t f s, (forall t', m_thr s t' = None) ->
+  let m := mrun cfg s (call_block t f) in
+  List.concat (snd m) = [] /\ m_regs (fst m) = exec (fn_body f) (m_regs s) /\ (forall t', m_thr (fst m) t' = None).
+Proof.
+  intros cfg t f s Hidle. cbn zeta. unfold call_block. rewrite mrun_cons. cbn [mstep]. rewrite (Hidle t). cbn [fst snd List.concat app].
+  set (s1 := {| m_regs := m_regs s; m_thr := upd (m_thr s) t (Some (f, fn_body f)); m_installed := m_installed s |}).
+  assert (H1 : m_thr s1 t = Some (f, fn_body f)) by (unfold s1; cbn [m_thr]; apply upd_same).
+  assert (Hne : fn_body f <> []) by (destruct f; discriminate).
+  destruct (steps_complete cfg t f (fn_body f) s1 Hne H1) as (I1 & I2 & I3). cbn zeta in I1, I2, I3.
+  split; [exact I1|]. split; [exact I2|].
+  intros t'. rewrite I3. unfold s1; cbn [m_thr]. unfold upd. destruct (t' =? t); [reflexivity | apply Hidle].
+Qed.
+
+Lemma exec_set_default : forall r, r_exists (exec (fn_body FSetDefault) r) = 1 /\ r_ginit (exec (fn_body FSetDefault) r) = r_ginit r.
+Proof. intros r. split; reflexivity. Qed.
+Lemma exec_guard_drop : forall r, r_exists (exec (fn_body FGuardDrop) r) = r_exists r /\ r_ginit (exec (fn_body FGuardDrop) r) = r_ginit r.
+Proof. intros r. split; reflexivity. Qed.
+Lemma exec_set_global : forall r,
+  (r_ginit r = 0 -> r_exists (exec (fn_body FSetGlobal) r) = 1 /\ r_ginit (exec (fn_body FSetGlobal) r) = 2) /\
+  (r_ginit r <> 0 -> exec (fn_body FSetGlobal) r = r).
+Proof.
+  intros r. cbn [fn_body]. change gen_fn_set_global with [ActCas AGlobalInit 0 1; ActLocal; ActStore AGlobalInit 2; ActStore AExists 1].
+  cbn [exec act rget]. split; intros H.
+  - rewrite H. cbn. split; reflexivity.
+  - apply N.eqb_neq in H. rewrite H. reflexivity.
+Qed.
+
+Theorem blocks_refine_run : forall cfg h s ex, boundary s ex -> Forall sop_ok h ->
+  List.concat (snd (mrun cfg s (flat_map sop_block h))) = List.concat (snd (run cfg ex (map sop_op h))) /\
+  boundary (fst (mrun cfg s (flat_map sop_block h))) (fst (run cfg ex (map sop_op h))).
+Proof.
+  intros cfg h. induction h as [|[t x] rest IH]; intros s ex Hb Hok; [split; [reflexivity | exact Hb]|].
+  inversion Hok as [|? ? Hx Hrest]; subst. destruct Hb as (Hidle & Hflag & Hg).
+  cbn [flat_map map]. rewrite mrun_app, run_cons. cbn [fst snd]. rewrite List.concat_app. cbn [List.concat].
+  assert (K : forall s' ex', boundary s' ex' -> List.concat (snd (mrun cfg s (sop_block (t, x)))) = snd (step cfg ex (sop_op (t, x))) ->
+              fst (mrun cfg s (sop_block (t, x))) = s' -> fst (step cfg ex (sop_op (t, x))) = ex' ->
+              List.concat (snd (mrun cfg s (sop_block (t, x)))) ++ List.concat (snd (mrun cfg (fst (mrun cfg s (sop_block (t, x)))) (flat_map sop_block rest))) =
+              snd (step cfg ex (sop_op (t, x))) ++ List.concat (snd (run cfg (fst (step cfg ex (sop_op (t, x)))) (map sop_op rest))) /\
+              boundary (fst (mrun cfg (fst (mrun cfg s (sop_block (t, x)))) (flat_map sop_block rest)))
+                       (fst (run cfg (fst (step cfg ex (sop_op (t, x)))) (map sop_op rest)))).
+  { intros s' ex' Hb' E1 E2 E3. rewrite E1, E2, E3. destruct (IH s' ex' Hb' Hrest) as [I1 I2]. rewrite I1. split; [reflexivity | exact I2]. }
+  destruct x as [| | |o]; unfold sop_block, sop_op in K |- *; cbn [fst snd] in K |- *.
+  - (* scoped install *)
+    destruct (block_complete cfg t FSetDefault s Hidle) as (B1 & B2 & B3). cbn zeta in B1, B2, B3.
+    destruct (exec_set_default (m_regs s)) as [E1 E2].
+    eapply K; [| rewrite B1; reflexivity | reflexivity | reflexivity].
+    split; [exact B3|]. rewrite B2. split; [apply hbs_true; rewrite E1; discriminate | intros _; rewrite E1; discriminate].
+  - (* global install *)
+    destruct (block_complete cfg t FSetGlobal s Hidle) as (B1 & B2 & B3). cbn zeta in B1, B2, B3.
+    destruct (exec_set_global (m_regs s)) as [G0 G1].
+    eapply K; [| rewrite B1; reflexivity | reflexivity | reflexivity].
+    split; [exact B3|]. rewrite B2.
+    destruct (N.eq_dec (r_ginit (m_regs s)) 0) as [Z|NZ].
+    + destruct (G0 Z) as [E1 E2]. split; [apply hbs_true; rewrite E1; discriminate | intros _; rewrite E1; discriminate].
+    + rewrite (G1 NZ). split; [apply hbs_true; now apply Hg | exact Hg].
+  - (* guard drop *)
+    destruct (block_complete cfg t FGuardDrop s Hidle) as (B1 & B2 & B3). cbn zeta in B1, B2, B3.
+    destruct (exec_guard_drop (m_regs s)) as [E1 E2].
+    eapply K; [| rewrite B1; reflexivity | reflexivity | reflexivity].
+    split; [exact B3|]. rewrite B2. split; [rewrite hbs_spec, E1, <- hbs_spec; exact Hflag | rewrite E1, E2; exact Hg].
+  - (* a logging step *)
+    cbn in Hx. eapply (K s ex); [split; [exact Hidle | split; [exact Hflag | exact Hg]] | | reflexivity |].
+    + cbn [mrun mstep snd fst List.concat app]. rewrite Hflag, app_nil_r. reflexivity.
+    + rewrite step_exists. destruct o; try reflexivity; discriminate.
+Qed.
+
+(** from the initial state *)
+Corollary run_is_machine : forall cfg h, Forall sop_ok h ->
+  List.concat (snd (mrun cfg minit (flat_map sop_block h))) = List.concat (snd (run cfg false (map sop_op h))) /\
+  has_been_set (m_regs (fst (mrun cfg minit (flat_map sop_block h)))) = fst (run cfg false (map sop_op h)).
+Proof.
+  intros cfg h Hok. destruct (blocks_refine_run cfg h minit false boundary_init Hok) as [H1 (_ & H2 & _)]. split; assumption.
+Qed.
+
+Example ex_sop_ok : Forall sop_ok [(0, SLog ex_ev); (1, SInstallScoped); (0, SLog ex_ev); (1, SUninstall); (2, SInstallGlobal); (0, SLog ex_ev)].
+Proof. repeat constructor. Qed.
+Example ex_run_is_machine :
+  List.concat (snd (mrun ex_cfg minit (flat_map sop_block [(0, SLog ex_ev); (1, SInstallScoped); (0, SLog ex_ev)]))) =
+  List.concat (snd (run ex_cfg false [ex_ev; OpInstall; ex_ev])).
+Proof. reflexivity. Qed.
